@@ -868,7 +868,7 @@ def return_worker(S):
     t = M.transport(tid)
     stream_opened = S.bool("stream_opened")
     if arity == 2:
-        S.assume(Not(stream_opened))
+        S.assume(And(Not(stream_opened), M.max_idle > v0.total))  # plain keep path: no eviction needed
         M.always_alive = True
     mid = {}
 
